@@ -74,17 +74,23 @@ pub struct Ev {
     /// exchange sequence number (unique per run); connection events carry the number of the
     /// connection attempt instead (separate counter)
     pub seq: u32,
+    /// index of the caller whose future was being polled when the event happened (a shared
+    /// lookup is driven by whichever of its callers is polled), -1 = none
+    pub caller: i32,
 }
 
 thread_local! {
     /// query key of the caller whose future is being polled right now (monitor-side attribution of
     /// connection attempts, which carry no query); -1 outside a tagged caller
     static CUR_Q: std::cell::Cell<i32> = const { std::cell::Cell::new(-1) };
+    /// index of that caller (attributes every upstream event to the caller that drove it)
+    static CUR_CALLER: std::cell::Cell<i32> = const { std::cell::Cell::new(-1) };
 }
 
 /// wraps a caller's future: while it is being polled, `CUR_Q` holds its query key
 struct Tagged<F> {
     q: i32,
+    caller: i32,
     f: Pin<Box<F>>,
 }
 
@@ -92,8 +98,10 @@ impl<F: Future> Future for Tagged<F> {
     type Output = F::Output;
     fn poll(mut self: Pin<&mut Self>, cx: &mut std::task::Context<'_>) -> std::task::Poll<F::Output> {
         let prev = CUR_Q.with(|c| c.replace(self.q));
+        let prev_caller = CUR_CALLER.with(|c| c.replace(self.caller));
         let r = self.f.as_mut().poll(cx);
         CUR_Q.with(|c| c.set(prev));
+        CUR_CALLER.with(|c| c.set(prev_caller));
         r
     }
 }
@@ -160,7 +168,7 @@ impl Inner {
             return;
         }
         let t = Self::now_us(&st);
-        st.log.push(Ev { t, kind, server, proto, q, seq });
+        st.log.push(Ev { t, kind, server, proto, q, seq, caller: CUR_CALLER.with(|c| c.get()) });
     }
 }
 
@@ -209,7 +217,7 @@ impl DnsHandle for SimConn {
                         st.seq += 1;
                         let seq = st.seq;
                         let t = Inner::now_us(&st);
-                        st.log.push(Ev { t, kind: Kind::Send, server, proto, q, seq });
+                        st.log.push(Ev { t, kind: Kind::Send, server, proto, q, seq, caller: CUR_CALLER.with(|c| c.get()) });
                         let scripted = inner.scn.servers.get(server).and_then(|s| s.slot(proto)).cloned().unwrap_or(Beh::Silent);
                         let b = match scripted {
                             Beh::Busy { k, d } => {
@@ -320,7 +328,7 @@ impl ConnectionProvider for SimConnProvider {
                     let mut st = inner.st.lock().unwrap();
                     st.cseq += 1;
                     let (t, cseq) = (Inner::now_us(&st), st.cseq);
-                    st.log.push(Ev { t, kind: Kind::ConnectStart, server, proto, q, seq: cseq });
+                    st.log.push(Ev { t, kind: Kind::ConnectStart, server, proto, q, seq: cseq, caller: CUR_CALLER.with(|c| c.get()) });
                     cseq
                 };
                 Ok(Box::pin(async move {
@@ -466,7 +474,7 @@ fn build_pool(scn: &Scenario, prov: &SimConnProvider) -> NameServerPool<SimConnP
 }
 
 pub async fn one_lookup(pool: &NameServerPool<SimConnProvider>, origin: tokio::time::Instant, idx: usize, c: &Caller) -> CallRes {
-    Tagged { q: c.q as i32, f: Box::pin(one_lookup_inner(pool, origin, idx, c)) }.await
+    Tagged { q: c.q as i32, caller: idx as i32, f: Box::pin(one_lookup_inner(pool, origin, idx, c)) }.await
 }
 
 async fn one_lookup_inner(pool: &NameServerPool<SimConnProvider>, origin: tokio::time::Instant, idx: usize, c: &Caller) -> CallRes {
